@@ -262,6 +262,34 @@ class Space:
         return "U(n,L,R) for " + ",".join(f"({n},{L},{R})" for n, L, R in self.specs)
 
 
+def wide_arg(L, order="grow", nonuniform=False):
+    """Hand-built family reaching code paths keyed on the NUMBER OF LOCAL TREES a node sees (e.g. the '>5 mixture
+    components' branch of the prior): n = L+3 samples, clade node A = parent of samples 0,1 everywhere and of sample j+2
+    over loci [j, L) ('grow') or [0, L-j) ('shrink'); root R above A, the remaining samples and sample n-1.  Node A has a
+    different descendant count in every one of the L local trees."""
+    n = L + 3
+    A, R = n, n + 1
+    edges = [[0, L, A, 0], [0, L, A, 1], [0, L, R, A], [0, L, R, n - 1]]
+    for j in range(L):
+        s = j + 2
+        a, b = (j, L) if order == "grow" else (0, L - j)
+        edges.append([a, b, A, s])
+        if a > 0:
+            edges.append([0, a, R, s])
+        if b < L:
+            edges.append([b, L, R, s])
+    tot = L
+    if nonuniform:  # local tree l has span l+1 instead of 1 (integer breakpoints l(l+1)/2)
+        f = lambda x: x * (x + 1) // 2  # noqa: E731
+        edges = [[f(a), f(b), p, c] for a, b, p, c in edges]
+        tot = f(L)
+    return {"n": n, "L": tot, "nn": n + 2, "edges": edges, "hist": [["WIDE", L, order, int(nonuniform)]], "id": f"W{L}{order}{'N' if nonuniform else ''}", "trees": L}
+
+
+def wide_family(sizes=(5, 6, 7)):
+    return [wide_arg(L, o, nu) for L in sizes for o in ("grow", "shrink") for nu in (False, True)]
+
+
 def space(tier, simplify=True, renumber=()):
     return Space(QUICK if tier == "quick" else THOROUGH, simplify=simplify, renumber=renumber)
 
@@ -373,9 +401,10 @@ def merge_sites_per_locus(ts):
         new_site[sid] = first[l]
     t.mutations.site = new_site[ts.mutations_site]
     t.mutations.time = np.full(t.mutations.num_rows, tskit.UNKNOWN_TIME)
-    t.sort()
-    t.build_index()
-    t.compute_mutation_parents()
+    for _ in range(2):  # tskit's mutation order within a site uses the parent column: sort to a fixed point
+        t.sort()
+        t.build_index()
+        t.compute_mutation_parents()
     return t.tree_sequence()
 
 
